@@ -28,11 +28,16 @@ def key(x):
 
 
 def tours(edges, init_key=None, max_len=400):
+    fk = [key(e["from"]) for e in edges]
+    tk = [key(e["to"]) for e in edges]
     out = collections.defaultdict(list)   # state -> list of edge indices
-    for i, e in enumerate(edges):
-        out[key(e["from"])].append(i)
+    succ = collections.defaultdict(dict)  # state -> {successor state: one edge index}
+    for i in range(len(edges)):
+        out[fk[i]].append(i)
+        if tk[i] != fk[i]:
+            succ[fk[i]].setdefault(tk[i], i)
     if init_key is None:
-        init_key = key(edges[0]["from"])
+        init_key = fk[0]
     unvisited = {s: list(reversed(ix)) for s, ix in out.items()}
     remaining = len(edges)
     scenarios = []
@@ -49,10 +54,9 @@ def tours(edges, init_key=None, max_len=400):
                 while seen[s] is not None:
                     ei = seen[s]
                     path.append(ei)
-                    s = key(edges[ei]["from"])
+                    s = fk[ei]
                 return list(reversed(path))
-            for ei in out.get(s, []):
-                t = key(edges[ei]["to"])
+            for t, ei in succ.get(s, {}).items():
                 if t not in seen:
                     seen[t] = ei
                     q.append(t)
@@ -63,7 +67,7 @@ def tours(edges, init_key=None, max_len=400):
             ei = unvisited[cur].pop()
             remaining -= 1
             scen.append(edges[ei]["act"])
-            cur = key(edges[ei]["to"])
+            cur = tk[ei]
             continue
         path = nearest(cur) if len(scen) < max_len else None
         if path is None or len(scen) + len(path) >= max_len:
@@ -75,7 +79,7 @@ def tours(edges, init_key=None, max_len=400):
                 break   # unreachable from init (cannot happen for a BFS export)
         for ei in path:
             scen.append(edges[ei]["act"])
-            cur = key(edges[ei]["to"])
+            cur = tk[ei]
     if scen:
         scenarios.append(scen)
     return scenarios
